@@ -6,6 +6,8 @@ use std::io::{BufWriter, Write};
 
 use serde_json::{json, Value as J};
 
+pub const BYTES_PER_SHARD: u64 = 48 << 20;
+
 pub struct Out {
     w: BufWriter<File>,
     pub seq: u64,
@@ -14,6 +16,9 @@ pub struct Out {
     base: String,
     idx: u64,
     in_shard: u64,
+    /// bytes written to the current shard: a shard is also closed when it grows past BYTES_PER_SHARD (the trace
+    /// validator reads a whole shard into memory)
+    bytes_in_shard: u64,
     /// while set, events of one run are kept together (no rotation between them)
     pub hold: bool,
 }
@@ -28,22 +33,28 @@ impl Out {
             base: path.to_string(),
             idx: 0,
             in_shard: 0,
+            bytes_in_shard: 0,
             hold: false,
         }
     }
+    fn full(&self) -> bool {
+        self.shard > 0 && (self.in_shard >= self.shard || self.bytes_in_shard >= BYTES_PER_SHARD)
+    }
     pub fn ev(&mut self, mut j: J) {
-        if self.shard > 0 && self.in_shard >= self.shard && !self.hold {
+        if self.full() && !self.hold {
             self.rotate();
         }
         self.seq += 1;
         self.in_shard += 1;
         j["seq"] = J::from(self.seq);
-        serde_json::to_writer(&mut self.w, &j).expect("write event");
+        let line = serde_json::to_vec(&j).expect("serialise event");
+        self.bytes_in_shard += line.len() as u64 + 1;
+        self.w.write_all(&line).expect("write event");
         self.w.write_all(b"\n").expect("write event");
     }
     /// a run boundary: the only place where a trace of runs may be split
     pub fn boundary(&mut self) {
-        if self.shard > 0 && self.in_shard >= self.shard {
+        if self.full() {
             self.rotate();
         }
     }
@@ -51,6 +62,7 @@ impl Out {
         self.finish_file();
         self.idx += 1;
         self.in_shard = 0;
+        self.bytes_in_shard = 0;
         let p = format!("{}.{}", self.base, self.idx);
         self.w = BufWriter::with_capacity(1 << 20, File::create(&p).expect("create shard"));
     }
